@@ -7,31 +7,33 @@ namespace ArvVerif.C04
 
 /-! ### ghost state: when was each hash last acknowledged -/
 
-abbrev Ghost := Hash → Option Time
+/-- last acknowledgement of a hash: its time, and whether it was a PUT (which vouches for the
+content) or a TOUCH (which does not look at the content) -/
+abbrev Ghost := Hash → Option (Time × Bool)
 
 /-- the hash a request acknowledges (PUT with the right body / TOUCH answered 200) -/
-def ackOf : Op → Res → Option Hash
-  | .put h true, .code 200 => some h
-  | .touch h, .code 200 => some h
+def ackOf : Op → Res → Option (Hash × Bool)
+  | .put h true, .code 200 => some (h, true)
+  | .touch h, .code 200 => some (h, false)
   | _, _ => none
 
 def ghostStep (g : Ghost) (now : Time) (op : Op) (r : Res) : Ghost :=
   match ackOf op r with
-  | some h => fun h' => if h' = h then some now else g h'
+  | some (h, p) => fun h' => if h' = h then some (now, p) else g h'
   | none => g
 
 def runG (c : Cfg) : St → Ghost → List Op → St × Ghost
   | s, g, [] => (s, g)
   | s, g, op :: ops => runG c (step c s op).1 (ghostStep g s.now op (step c s op).2) ops
 
-/-- some volume holds a copy of `h` stamped at or after `t` -/
-def HoldsL (vs : List Vol) (h : Hash) (t : Time) : Prop :=
-  ∃ v ∈ vs, ∃ f, v.blocks h = some f ∧ t ≤ f.mtime
+/-- some volume holds a copy of `h` stamped at or after `t` (an intact one if `p`) -/
+def HoldsL (vs : List Vol) (h : Hash) (t : Time) (p : Bool) : Prop :=
+  ∃ v ∈ vs, ∃ f, v.blocks h = some f ∧ t ≤ f.mtime ∧ (p = true → f.good = true)
 
 /-- THE invariant: every acknowledged hash whose TTL has not run out is still on the server, with a
-timestamp not older than the acknowledgement -/
+timestamp not older than the acknowledgement (and, after a PUT, with intact content) -/
 def Prot (c : Cfg) (s : St) (g : Ghost) : Prop :=
-  ∀ h t, g h = some t → t ≤ s.now ∧ (s.now < t + c.ttl → HoldsL s.vols h t)
+  ∀ h t p, g h = some (t, p) → t ≤ s.now ∧ (s.now < t + c.ttl → HoldsL s.vols h t p)
 
 /-- the history never lets `untrash` rename a trashed copy over an existing block file -/
 def SafeOp (s : St) : Op → Prop
@@ -43,34 +45,36 @@ def SafeOps (c : Cfg) : St → List Op → Prop
   | s, op :: ops => SafeOp s op ∧ SafeOps c (step c s op).1 ops
 
 def Keeps (h : Hash) (t : Time) (v v' : Vol) : Prop :=
-  ∀ f, v.blocks h = some f → t ≤ f.mtime → ∃ f', v'.blocks h = some f' ∧ t ≤ f'.mtime
+  ∀ f, v.blocks h = some f → t ≤ f.mtime → ∃ f', v'.blocks h = some f' ∧ t ≤ f'.mtime ∧ (f.good = true → f'.good = true)
 
-theorem keeps_refl (h : Hash) (t : Time) (v : Vol) : Keeps h t v v := fun f hf ht => ⟨f, hf, ht⟩
+theorem keeps_refl (h : Hash) (t : Time) (v : Vol) : Keeps h t v v := fun f hf ht => ⟨f, hf, ht, id⟩
 
-theorem holds_map {vs : List Vol} {F : Vol → Vol} {h : Hash} {t : Time}
-    (hk : ∀ v ∈ vs, Keeps h t v (F v)) (hh : HoldsL vs h t) : HoldsL (vs.map F) h t := by
-  obtain ⟨v, hv, f, hf, ht⟩ := hh
-  obtain ⟨f', hf', ht'⟩ := hk v hv f hf ht
-  exact ⟨F v, List.mem_map_of_mem hv, f', hf', ht'⟩
+theorem holds_map {vs : List Vol} {F : Vol → Vol} {h : Hash} {t : Time} {p : Bool}
+    (hk : ∀ v ∈ vs, Keeps h t v (F v)) (hh : HoldsL vs h t p) : HoldsL (vs.map F) h t p := by
+  obtain ⟨v, hv, f, hf, ht, hg⟩ := hh
+  obtain ⟨f', hf', ht', hg'⟩ := hk v hv f hf ht
+  exact ⟨F v, List.mem_map_of_mem hv, f', hf', ht', fun hp => hg' (hg hp)⟩
 
 theorem prot_map {c : Cfg} {s : St} {g : Ghost} (hp : Prot c s g) (F : Vol → Vol) (rr' : Nat)
-    (hk : ∀ h t, g h = some t → s.now < t + c.ttl → ∀ v ∈ s.vols, Keeps h t v (F v)) :
+    (hk : ∀ h t p, g h = some (t, p) → s.now < t + c.ttl → ∀ v ∈ s.vols, Keeps h t v (F v)) :
     Prot c { vols := s.vols.map F, now := s.now, rr := rr' } g := by
-  intro h t hg
-  obtain ⟨h1, h2⟩ := hp h t hg
-  exact ⟨h1, fun hlt => holds_map (hk h t hg hlt) (h2 hlt)⟩
+  intro h t p hg
+  obtain ⟨h1, h2⟩ := hp h t p hg
+  exact ⟨h1, fun hlt => holds_map (hk h t p hg hlt) (h2 hlt)⟩
 
-/-- acknowledging `h` now: allowed when a copy stamped `now` exists -/
-theorem prot_ack {c : Cfg} {s : St} {g : Ghost} (hp : Prot c s g) (h : Hash) (hh : HoldsL s.vols h s.now) :
-    Prot c s (fun h' => if h' = h then some s.now else g h') := by
-  intro h' t hg
+/-- acknowledging `h` now: allowed when a copy stamped `now` exists (intact, for a PUT) -/
+theorem prot_ack {c : Cfg} {s : St} {g : Ghost} (hp : Prot c s g) (h : Hash) (p : Bool)
+    (hh : HoldsL s.vols h s.now p) :
+    Prot c s (fun h' => if h' = h then some (s.now, p) else g h') := by
+  intro h' t p' hg
   by_cases he : h' = h
   · subst he
-    simp only [if_true, Option.some.injEq] at hg
-    subst hg
+    simp only [if_true, Option.some.injEq, Prod.mk.injEq] at hg
+    obtain ⟨h1, h2⟩ := hg
+    subst h1; subst h2
     exact ⟨Nat.le_refl _, fun _ => hh⟩
   · simp only [he, if_false] at hg
-    exact hp h' t hg
+    exact hp h' t p' hg
 
 /-! ### per-volume lemmas -/
 
@@ -86,22 +90,24 @@ theorem keeps_touch (h h' : Hash) (t now : Time) (v : Vol) (ht : t ≤ now) :
   intro f hf hft
   unfold Vol.touch
   split
-  · exact ⟨f, hf, hft⟩
+  · exact ⟨f, hf, hft, id⟩
   · split
-    · exact ⟨f, hf, hft⟩
+    · exact ⟨f, hf, hft, id⟩
     · rename_i f0 hf0
       by_cases he : h' = h
       · subst he
-        exact ⟨{ f0 with mtime := now }, by simp [Vol.setBlock], ht⟩
-      · exact ⟨f, by simpa [Vol.setBlock, he] using hf, hft⟩
+        rw [hf] at hf0
+        cases hf0
+        exact ⟨{ f with mtime := now }, by simp [Vol.setBlock], ht, id⟩
+      · exact ⟨f, by simpa [Vol.setBlock, he] using hf, hft, id⟩
 
 theorem keeps_write (h h' : Hash) (t now : Time) (v : Vol) (ht : t ≤ now) :
     Keeps h' t v (v.write h now) := by
   intro f hf hft
   by_cases he : h' = h
   · subst he
-    exact ⟨{ good := true, mtime := now }, by simp [Vol.write, Vol.setBlock], ht⟩
-  · exact ⟨f, by simpa [Vol.write, Vol.setBlock, he] using hf, hft⟩
+    exact ⟨{ good := true, mtime := now }, by simp [Vol.write, Vol.setBlock], ht, fun _ => rfl⟩
+  · exact ⟨f, by simpa [Vol.write, Vol.setBlock, he] using hf, hft, id⟩
 
 theorem keeps_if {h : Hash} {t : Time} {v : Vol} {p : Prop} [Decidable p] {v' : Vol}
     (hk : Keeps h t v v') : Keeps h t v (if p then v' else v) := by
@@ -137,7 +143,7 @@ theorem keeps_trashBlock (c : Cfg) (now : Time) (v : Vol) (h h' : Hash) (t : Tim
     (hlt : now < t + c.ttl) : Keeps h' t v (Vol.trashBlock c now v h).2 := by
   intro f hf hft
   cases trashBlock_blocks c now v h h' with
-  | inl heq => exact ⟨f, by rw [heq]; exact hf, hft⟩
+  | inl heq => exact ⟨f, by rw [heq]; exact hf, hft, id⟩
   | inr hx =>
     obtain ⟨he, _, _, _, f0, hf0, hold⟩ := hx
     subst he
@@ -175,7 +181,7 @@ theorem sweepVol_blocks (c : Cfg) (now : Time) (v : Vol) : (sweepVol c now v).bl
 
 theorem keeps_sweep (c : Cfg) (now : Time) (v : Vol) (h : Hash) (t : Time) : Keeps h t v (sweepVol c now v) := by
   intro f hf hft
-  exact ⟨f, by rw [sweepVol_blocks]; exact hf, hft⟩
+  exact ⟨f, by rw [sweepVol_blocks]; exact hf, hft, id⟩
 
 theorem keeps_untrashVol (v : Vol) (h h' : Hash) (t : Time)
     (hsafe : v.ro = false → v.blocks h = none ∨ minEntry h v.trash = none) :
@@ -183,19 +189,19 @@ theorem keeps_untrashVol (v : Vol) (h h' : Hash) (t : Time)
   intro f hf hft
   unfold untrashVol
   split
-  · exact ⟨f, hf, hft⟩
+  · exact ⟨f, hf, hft, id⟩
   · rename_i hro
     have hro' : v.ro = false := by simpa using hro
     unfold Vol.untrash
     cases hsafe hro' with
-    | inr hnone => simp only [hnone, Option.getD_none]; exact ⟨f, hf, hft⟩
+    | inr hnone => simp only [hnone, Option.getD_none]; exact ⟨f, hf, hft, id⟩
     | inl hb =>
       split
-      · exact ⟨f, hf, hft⟩
+      · exact ⟨f, hf, hft, id⟩
       · simp only [Option.getD_some]
         have hne : h' ≠ h := by
           intro he; subst he; rw [hb] at hf; cases hf
-        exact ⟨f, by simpa [Vol.setBlock, hne] using hf, hft⟩
+        exact ⟨f, by simpa [Vol.setBlock, hne] using hf, hft, id⟩
 
 /-! ### server-level lemmas -/
 
@@ -236,18 +242,18 @@ theorem firstHolding_some {h : Hash} {ws : List Vol} {id : Nat} (hc : firstHoldi
       exact ⟨v, List.mem_cons_of_mem _ hv, hx⟩
 
 /-- after touching the volumes with id `id`, a copy of `h` stamped `now` exists -/
-theorem holds_after_touch {vs : List Vol} {v : Vol} {h : Hash} {now : Time} {f : File}
-    (hv : v ∈ vs) (hro : v.ro = false) (hf : v.blocks h = some f) :
-    HoldsL (updVol vs v.id (fun w => (w.touch h now).getD w)) h now := by
-  refine ⟨(v.touch h now).getD v, ?_, { f with mtime := now }, ?_, Nat.le_refl _⟩
+theorem holds_after_touch {vs : List Vol} {v : Vol} {h : Hash} {now : Time} {f : File} {p : Bool}
+    (hv : v ∈ vs) (hro : v.ro = false) (hf : v.blocks h = some f) (hg : p = true → f.good = true) :
+    HoldsL (updVol vs v.id (fun w => (w.touch h now).getD w)) h now p := by
+  refine ⟨(v.touch h now).getD v, ?_, { f with mtime := now }, ?_, Nat.le_refl _, hg⟩
   · unfold updVol
     have := List.mem_map_of_mem (f := fun w => if w.id = v.id then (w.touch h now).getD w else w) hv
     simpa using this
   · simp [Vol.touch, hro, hf, Vol.setBlock]
 
-theorem holds_after_write {vs : List Vol} {v : Vol} {h : Hash} {now : Time} (hv : v ∈ vs) :
-    HoldsL (updVol vs v.id (fun w => w.write h now)) h now := by
-  refine ⟨v.write h now, ?_, { good := true, mtime := now }, ?_, Nat.le_refl _⟩
+theorem holds_after_write {vs : List Vol} {v : Vol} {h : Hash} {now : Time} {p : Bool} (hv : v ∈ vs) :
+    HoldsL (updVol vs v.id (fun w => w.write h now)) h now p := by
+  refine ⟨v.write h now, ?_, { good := true, mtime := now }, ?_, Nat.le_refl _, fun _ => rfl⟩
   · unfold updVol
     have := List.mem_map_of_mem (f := fun w => if w.id = v.id then w.write h now else w) hv
     simpa using this
@@ -260,7 +266,7 @@ theorem step_now_ge (c : Cfg) (s : St) (op : Op) : s.now ≤ (step c s op).1.now
 
 theorem prot_step {c : Cfg} {s : St} {g : Ghost} (hp : Prot c s g) (op : Op) (hsafe : SafeOp s op) :
     Prot c (step c s op).1 (ghostStep g s.now op (step c s op).2) := by
-  have hle : ∀ h t, g h = some t → t ≤ s.now := fun h t hg => (hp h t hg).1
+  have hle : ∀ h t p, g h = some (t, p) → t ≤ s.now := fun h t p hg => (hp h t p hg).1
   cases op with
   | put h goodBody =>
     simp only [step]
@@ -274,23 +280,24 @@ theorem prot_step {c : Cfg} {s : St} {g : Ghost} (hp : Prot c s g) (op : Op) (hs
         split
         · -- compare-and-touch
           rename_i id hcat
-          obtain ⟨v, hvw, hid, f, hf, _⟩ := compareAndTouch_some hcat
+          obtain ⟨v, hvw, hid, f, hf, hgood⟩ := compareAndTouch_some hcat
           obtain ⟨hv, hro⟩ := mem_writables hvw
           subst hid
           have h1 : Prot c { vols := s.vols.map (fun w => if w.id = v.id then (w.touch h s.now).getD w else w),
                              now := s.now, rr := s.rr } g :=
-            prot_map hp _ _ (fun h' t hg _ w _ => keeps_if (keeps_touch h h' t s.now w (hle h' t hg)))
+            prot_map hp _ _ (fun h' t p hg _ w _ => keeps_if (keeps_touch h h' t s.now w (hle h' t p hg)))
           simp only [ghostStep, ackOf]
-          exact prot_ack (s := { vols := _, now := s.now, rr := s.rr }) h1 h (holds_after_touch hv hro hf)
+          exact prot_ack (s := { vols := _, now := s.now, rr := s.rr }) h1 h true
+            (holds_after_touch hv hro hf (fun _ => hgood))
         · split
           · rename_i w hw
             have hwm : w ∈ writables s.vols := List.mem_of_getElem? hw
             obtain ⟨hv, _⟩ := mem_writables hwm
             have h1 : Prot c { vols := s.vols.map (fun x => if x.id = w.id then x.write h s.now else x),
                                now := s.now, rr := s.rr + 1 } g :=
-              prot_map hp _ _ (fun h' t hg _ x _ => keeps_if (keeps_write h h' t s.now x (hle h' t hg)))
+              prot_map hp _ _ (fun h' t p hg _ x _ => keeps_if (keeps_write h h' t s.now x (hle h' t p hg)))
             simp only [ghostStep, ackOf]
-            exact prot_ack (s := { vols := _, now := s.now, rr := s.rr + 1 }) h1 h (holds_after_write hv)
+            exact prot_ack (s := { vols := _, now := s.now, rr := s.rr + 1 }) h1 h true (holds_after_write hv)
           · simpa [ghostStep, ackOf] using hp
   | touch h =>
     simp only [step]
@@ -301,9 +308,10 @@ theorem prot_step {c : Cfg} {s : St} {g : Ghost} (hp : Prot c s g) (op : Op) (hs
       subst hid
       have h1 : Prot c { vols := s.vols.map (fun w => if w.id = v.id then (w.touch h s.now).getD w else w),
                          now := s.now, rr := s.rr } g :=
-        prot_map hp _ _ (fun h' t hg _ w _ => keeps_if (keeps_touch h h' t s.now w (hle h' t hg)))
+        prot_map hp _ _ (fun h' t p hg _ w _ => keeps_if (keeps_touch h h' t s.now w (hle h' t p hg)))
       simp only [ghostStep, ackOf]
-      exact prot_ack (s := { vols := _, now := s.now, rr := s.rr }) h1 h (holds_after_touch hv hro hf)
+      exact prot_ack (s := { vols := _, now := s.now, rr := s.rr }) h1 h false
+        (holds_after_touch hv hro hf (fun hc => by cases hc))
     · simpa [ghostStep, ackOf] using hp
   | get h => simpa [step, ghostStep, ackOf] using hp
   | delete h =>
@@ -313,13 +321,13 @@ theorem prot_step {c : Cfg} {s : St} {g : Ghost} (hp : Prot c s g) (op : Op) (hs
     · split
       · simpa [ghostStep, ackOf] using hp
       · simp only [ghostStep, ackOf]
-        exact prot_map hp _ _ (fun h' t _ hlt v _ => keeps_delVol c s.now v h h' t hlt)
+        exact prot_map hp _ _ (fun h' t _ _ hlt v _ => keeps_delVol c s.now v h h' t hlt)
   | trashItem h req mount =>
     simp only [step]
     split
     · simpa [ghostStep, ackOf] using hp
     · simp only [ghostStep, ackOf]
-      exact prot_map hp _ _ (fun h' t _ hlt v _ => keeps_tiVol c s.now v h h' req mount t hlt)
+      exact prot_map hp _ _ (fun h' t _ _ hlt v _ => keeps_tiVol c s.now v h h' req mount t hlt)
   | untrash h =>
     simp only [step]
     split
@@ -327,14 +335,14 @@ theorem prot_step {c : Cfg} {s : St} {g : Ghost} (hp : Prot c s g) (op : Op) (hs
     · split
       · simpa [ghostStep, ackOf] using hp
       · simp only [ghostStep, ackOf]
-        exact prot_map hp _ _ (fun h' t _ _ v hv => keeps_untrashVol v h h' t (hsafe v hv))
+        exact prot_map hp _ _ (fun h' t _ _ _ v hv => keeps_untrashVol v h h' t (hsafe v hv))
   | emptyTrash =>
     simp only [step, ghostStep, ackOf]
-    exact prot_map hp _ _ (fun h' t _ _ v _ => keeps_sweep c s.now v h' t)
+    exact prot_map hp _ _ (fun h' t _ _ _ v _ => keeps_sweep c s.now v h' t)
   | tick d =>
     simp only [step, ghostStep, ackOf]
-    intro h t hg
-    obtain ⟨h1, h2⟩ := hp h t hg
+    intro h t p hg
+    obtain ⟨h1, h2⟩ := hp h t p hg
     exact ⟨Nat.le_trans h1 (Nat.le_add_right _ _), fun hlt => h2 (Nat.lt_of_le_of_lt (Nat.le_add_right _ _) hlt)⟩
   | unauth k => simpa [step, ghostStep, ackOf] using hp
 
@@ -346,5 +354,28 @@ theorem prot_run {c : Cfg} : ∀ (ops : List Op) (s : St) (g : Ghost), Prot c s 
   | cons op ops ih =>
     intro s g hp hs
     exact ih _ _ (prot_step hp op hs.1) hs.2
+
+/-- GetBlock answers 200 as soon as some volume holds an intact copy -/
+theorem getStatus_200 {h : Hash} : ∀ (vs : List Vol) (acc : Nat),
+    (∃ v ∈ vs, ∃ f, v.blocks h = some f ∧ f.good = true) → getStatus h vs acc = 200 := by
+  intro vs
+  induction vs with
+  | nil => intro _ ⟨v, hv, _⟩; cases hv
+  | cons w ws ih =>
+    intro acc ⟨v, hv, f, hf, hg⟩
+    unfold getStatus
+    cases hw : w.blocks h with
+    | some fw =>
+      by_cases hgw : fw.good = true
+      · simp [hgw]
+      · simp only [hgw, Bool.false_eq_true, if_false]
+        cases hv with
+        | head => rw [hw] at hf; cases hf; exact absurd hg hgw
+        | tail _ hv' => exact ih _ ⟨v, hv', f, hf, hg⟩
+    | none =>
+      simp only
+      cases hv with
+      | head => rw [hw] at hf; cases hf
+      | tail _ hv' => exact ih _ ⟨v, hv', f, hf, hg⟩
 
 end ArvVerif.C04
